@@ -50,7 +50,7 @@ func (p histProp) Units(tier string, seed int64) ([]core.Unit, error) {
 	if tier != "quick" {
 		n = p.thoroughN
 	}
-	batch := 25
+	batch := 10
 	if p.maxLen > 20 {
 		batch = 4
 	}
